@@ -10,6 +10,7 @@ import sys
 import time
 
 ROOT = os.path.dirname(os.path.dirname(os.path.abspath(__file__)))
+REPO = os.environ.get("NXSLIB_REPO", "/repo")      # a private worktree when the evaluation runs in a copy of /verif
 HDIR = os.path.join(ROOT, "seeded", "_harmless")
 AFFECTED = {
     "serialframe.py": ["C01", "C02", "C03", "C14", "C17", "C20"],
@@ -35,15 +36,15 @@ def main():
     for name in names:
         d = os.path.join(HDIR, name)
         patch = os.path.join(d, "patch.diff")
-        if sh("git -C /repo status --porcelain").stdout.strip():
-            print("refusing: /repo not clean")
+        if sh("git -C %s status --porcelain" % REPO).stdout.strip():
+            print("refusing: %s not clean" % REPO)
             return
         files = [l.split("/")[-1].strip() for l in open(patch) if l.startswith("+++ ")]
         props = sorted({p for f in files for p in AFFECTED.get(f, [])})
         keep = "/var/tmp/evidence-keep-%d" % os.getpid()     # evidence files describe runs against /repo itself
         shutil.rmtree(keep, ignore_errors=True)
         shutil.copytree(os.path.join(ROOT, "evidence"), keep)
-        r = sh("git -C /repo apply %s" % patch)
+        r = sh("git -C %s apply %s" % (REPO, patch))
         res = {}
         try:
             if r.returncode != 0:
@@ -56,7 +57,7 @@ def main():
                 res[p] = {"exit": c.returncode, "line": line[0] if line else c.stdout[-200:], "wall_s": round(time.time() - t0, 1)}
                 print(name, p, c.returncode, (line[0] if line else "")[:140], flush=True)
         finally:
-            sh("git -C /repo checkout -- .")
+            sh("git -C %s checkout -- ." % REPO)
             sh("/venv/bin/python %s/tools/extract.py --quiet" % ROOT)
             for f in os.listdir(keep):
                 shutil.copy(os.path.join(keep, f), os.path.join(ROOT, "evidence", f))
